@@ -12,7 +12,7 @@ VERIF = expand.VERIF
 _cache = {}
 
 
-def run_battery(prop, seed, timeout=900):
+def run_battery(prop, seed, timeout=400):
     """returns (list of failure dicts, note)"""
     key = (prop, seed, expand.tree_hash(os.environ.get('VERIF_REPO', expand.REPO)))
     if key in _cache:
